@@ -4,7 +4,7 @@ paused (SIGSTOP/SIGCONT) - at most one of the three down at any time. DIRECT ORA
 readable with its latest value (bounded wait for election/catch-up; unacknowledged writes may or may not be visible).
 
 Process hygiene: only PIDs started here are signalled (Popen handles, own session), data and logs under ck.work.
-Quick tier: one fixed scenario (~75 s); thorough tier: plus generated fault rounds. C05_CLUSTER=0 skips it. If the cluster cannot be brought up the part is reported as
+Quick tier: one kill-during-write/restart round on the master's store + one pause round; thorough tier: every store in turn plus generated fault rounds. C05_CLUSTER=0 skips it. If the cluster cannot be brought up the part is reported as
 NOT RUN with the reason - never as a pass."""
 import os
 import signal
@@ -168,7 +168,6 @@ def run(ck):
                 st, body = http("POST", base + "/write?db=db0", data=line, timeout=30)
                 if st == 204:
                     acked[ts] = v
-                    maybe[ts] = set()
                     history.append(("ack", ts, v))
                     return True
                 maybe.setdefault(ts, set()).add(v)
@@ -217,14 +216,21 @@ def run(ck):
         T0 = 1700000000000000000
         ok = True
         fails = []
-        steps = [("write", range(0, 10)), ("check", "all up"),
-                 ("kill", 1), ("write", list(range(5, 15))), ("check", "store2 down"),
-                 ("restart", 1), ("sleep", 15), ("write", list(range(10, 18))), ("check", "store2 rejoined"),
-                 ("kill", 2), ("write", list(range(0, 6))), ("check", "store3 down after store2 rejoined"),
-                 ("restart", 2), ("sleep", 15),
-                 ("pause", 0), ("write", list(range(15, 20))), ("resume", 0), ("check", "store1 paused and resumed"),
-                 ("kill", 0), ("write", list(range(3, 9))), ("check", "store1 down"), ("restart", 0), ("sleep", 10),
+        # quick tier: one kill/restart round on the store that owns the master partition (the kill comes right after a
+        # write was sent), one pause round. thorough tier: every store in turn, then generated rounds.
+        steps = [("write", range(0, 8)), ("check", "all up"),
+                 ("killwrite", 0, 3), ("write", list(range(2, 8))), ("check", "store1 (master owner) down"),
+                 ("restart", 0), ("sleep", 5),
+                 ("pause", 1), ("write", list(range(6, 10))), ("resume", 1), ("check", "store2 paused and resumed"),
                  ("check", "all back")]
+        if ck.tier == "thorough":
+            steps += [("kill", 1), ("write", list(range(5, 15))), ("check", "store2 down"),
+                      ("restart", 1), ("sleep", 15), ("write", list(range(10, 18))), ("check", "store2 rejoined"),
+                      ("kill", 2), ("write", list(range(0, 6))), ("check", "store3 down after store2 rejoined"),
+                      ("restart", 2), ("sleep", 15),
+                      ("pause", 0), ("write", list(range(15, 20))), ("resume", 0), ("check", "store1 paused and resumed"),
+                      ("kill", 0), ("write", list(range(3, 9))), ("check", "store1 down"), ("restart", 0), ("sleep", 10),
+                      ("check", "all back")]
         if ck.tier == "thorough":
             # generated fault sequences (one PRNG from the seed): victim and fault kind per round, at most one store down
             import random
@@ -232,8 +238,13 @@ def run(ck):
             for _round in range(8):
                 v = rnd.randrange(3)
                 keys = [rnd.randrange(0, 24) for _ in range(rnd.randrange(4, 10))]
-                if rnd.random() < 0.3:
+                x = rnd.random()
+                if x < 0.25:
                     steps += [("pause", v), ("write", keys), ("resume", v), ("check", "round %d: store%d paused" % (_round, v + 1))]
+                elif x < 0.6:
+                    steps += [("killwrite", v, keys[0]), ("write", keys), ("check", "round %d: store%d killed during a write" % (_round, v + 1)),
+                              ("restart", v), ("sleep", rnd.choice([2, 8, 15])), ("write", keys[:3]),
+                              ("check", "round %d: store%d rejoined" % (_round, v + 1))]
                 else:
                     steps += [("write", keys[:2]), ("kill", v), ("write", keys), ("check", "round %d: store%d down" % (_round, v + 1)),
                               ("restart", v), ("sleep", rnd.choice([2, 8, 15])), ("write", keys[:3]),
@@ -248,6 +259,15 @@ def run(ck):
                 if not check(st[1]):
                     ok = False
                     fails.append(st[1])
+            elif st[0] == "killwrite":
+                # SIGKILL right after a write was sent (leader/master killed in the middle of a write)
+                import threading
+                th = threading.Thread(target=write, args=(T0 + st[2] * 1000000000,))
+                th.start()
+                time.sleep(0.02)
+                stores[st[1]].kill()
+                history.append(("kill", st[1], "during-write"))
+                th.join()
             elif st[0] == "kill":
                 stores[st[1]].kill()
                 history.append(("kill", st[1]))
